@@ -186,7 +186,7 @@ class PropertiesToTree(Builds):
     field, whatever its value (None and falsy values are values) -, the single one as it is, several chained by AND, none
     dropped (C13)"""
     qual = 'symbolic:properties_to_expression_tree'
-    props = ('C13',)
+    props = ('C13', 'C19')      # C19: a field constraint is a value position - None / falsy constants constrain like any other
     nfields = (0, 1, 2, 3)
 
     def setup(self, eng):
